@@ -276,6 +276,9 @@ def weave_span_backoff():
     new, n = re.subn(r"recordSpanBackoff\s*=\s*15\s*\*\s*time\.Second", "recordSpanBackoff = 15 * time.Millisecond", text)
     if n != 1:
         return {}
+    # virtual time-out of a Shutdown call in progress (op shutbegin / shutend): the ticker of Shutdown comes from the harness;
+    # if the call is not there any more the real ticker keeps running
+    new, _n2 = re.subn(r"ticker := time\.NewTicker\(timeout\)", "ticker := verifShutdownTicker(timeout)", new, count=1)
     os.makedirs(os.path.join(BUILD, "woven"), exist_ok=True)
     dst = os.path.join(BUILD, "woven", "trace_observer.go")
     tmp = dst + ".%d" % os.getpid()
